@@ -74,13 +74,45 @@ let () =
         else if cap = N0 then Printf.printf "%s BADCAP\n" id
         else begin
           let st = ref (acc_init cap) in
+          (* INSTALL k: [lag_old] = the state of the lagging replica (it stops applying);
+             !st goes on as the state of the replica that applies the log *)
+          let lag_old = ref None and lag_left = ref 0 and install_due = ref false in
+          let do_install k =
+            match !lag_old with
+            | None -> ()
+            | Some old ->
+              lag_old := None; lag_left := 0;
+              (match acc_snapshot !st with
+               | None -> Printf.printf "%s %d INSTALLFAIL\n" id k
+               | Some (((sv, smb) as sn), _) ->
+                 (match acc_install old sn with
+                  | None -> Printf.printf "%s %d INSTALLFAIL\n" id k
+                  | Some st' ->
+                    Printf.printf "%s %d S %s sm=%s\n" id k (show_sessions (fst sv) (snd sv)) (string_of_n (le_dec smb));
+                    st := st';
+                    Printf.printf "%s %d T %s sm=%s\n" id k (show_table st'.st_tab) (string_of_n st'.st_sm))) in
+          let ops = split_ops body in
           List.iteri (fun k o ->
-            match split_ws o with
+            if !install_due then begin install_due := false; do_install (k - 1) end;
+            let w = split_ws o in
+            if !lag_left > 0 && (match w with "E" :: _ -> false | _ -> true) then
+              Printf.printf "%s %d skip\n" id k
+            else
+            match w with
+            | ["INSTALL"] | ["INSTALL"; _] ->
+              let n = (match w with [_; x] -> int_of_string x | _ -> 1) in
+              if n > 0 then begin lag_old := Some !st; lag_left := n end;
+              Printf.printf "%s %d INSTALL %d\n" id k n
             | ["E"; c; s; r; cmd] ->
               let e = { e_client = n_of_string c; e_series = n_of_string s;
                         e_responded = n_of_string r; e_cmd = bytes_of_hex cmd } in
               let (st', out) = acc_step !st e in
               st := st';
+              if !lag_left > 0 then begin
+                Printf.printf "%s %d L %s\n" id k (show_outcome out);
+                decr lag_left;
+                if !lag_left = 0 then install_due := true
+              end else
               Printf.printf "%s %d %s\n" id k (show_outcome out)
             | ["SNAP"] ->
               (match acc_snapshot !st with
@@ -102,7 +134,8 @@ let () =
               Printf.printf "%s %d T %s sm=%s\n" id k (show_table !st.st_tab) (string_of_n !st.st_sm)
             | ["CAP"] -> Printf.printf "%s %d CAP %s\n" id k (string_of_n default_cap)
             | w :: _ -> Printf.printf "%s %d ? %s\n" id k w
-            | [] -> ()) (split_ops body);
+            | [] -> ()) ops;
+          if !lag_left > 0 || !install_due then do_install (List.length ops);
           Printf.printf "%s end T %s sm=%s\n" id (show_table !st.st_tab) (string_of_n !st.st_sm)
         end
     end)
